@@ -33,6 +33,7 @@ N_RECV = "DBOS.recv"
 N_WSTREAM = "DBOS.writeStream"
 
 CUR_LIFE: contextvars.ContextVar = contextvars.ContextVar("c27_life", default=None)
+CUR_STEP: contextvars.ContextVar = contextvars.ContextVar("c27_step", default=None)
 
 _OPS_DDL = """
 CREATE TABLE IF NOT EXISTS operation_outputs (
@@ -183,6 +184,12 @@ class Life:
             self.frozen.set()
             await asyncio.Event().wait()
 
+    def flush(self, inv) -> None:
+        """Events a step body sent become durable together with the step's recorded outcome (see assumptions)."""
+        for tick in inv["outbox"]:
+            self.log.send(tick)
+        inv["outbox"] = []
+
     def check(self, fid: int, name: str, row) -> bool:
         if row[0] != name:
             self.mismatch.append({"fid": fid, "recorded": row[0].split(":")[0], "called": name.split(":")[0]})
@@ -268,17 +275,24 @@ class Life:
                 if row[2] is not None:
                     raise pickle.loads(row[2])
                 return pickle.loads(row[1])
+            inv = {"fid": fid, "outbox": []}
+            tok = CUR_STEP.set(inv)
             try:
-                out = await fn(*a, **kw)
+                try:
+                    out = await fn(*a, **kw)
+                finally:
+                    CUR_STEP.reset(tok)
             except Exception as e:  # noqa: BLE001  (DBOS records a step's exception as its outcome)
                 await life.gate("step-error")
                 if row is None:
                     life.log.record(fid, fname, None, error=e)
+                life.flush(inv)
                 life.ops.append((fid, fname, False))
                 raise
             await life.gate("step")
             if row is None:
                 life.log.record(fid, fname, out)
+            life.flush(inv)
             life.ops.append((fid, fname, False))
             await life.gate("step+")
             return out
@@ -421,6 +435,10 @@ class C27(Prop):
 
             async def send_event(self, tick) -> None:
                 life = self._life
+                inv = CUR_STEP.get()
+                if inv is not None:
+                    inv["outbox"].append(tick)  # sent by a step body: committed with the step's outcome
+                    return
                 await life.gate("send")
                 life.log.send(tick)
                 await life.gate("send+")
@@ -819,29 +837,32 @@ class C27(Prop):
             # (f) function ids
             if Q.mismatch:
                 r.v("function_id_mismatch", phase=tag, **Q.mismatch[0], **attrs)
-            # (a) ticks
-            n = len(P.ticks)
-            if Q.ticks[:n] != P.ticks:
-                i = next((x for x in range(min(n, len(Q.ticks))) if Q.ticks[x] != P.ticks[x]), min(n, len(Q.ticks)))
-                same_kind = i < len(Q.ticks) and i < n and tick_brief(Q.ticks[i]) == tick_brief(P.ticks[i])
+            # (a) ticks: agreement with the longest tick log of the earlier lives on the common prefix; a life that was not
+            # stopped itself must reproduce all of it
+            PT = max((lv.ticks for lv in lives[:k]), key=len)
+            PP = max((lv.pubs for lv in lives[:k]), key=len)
+            n = len(PT) if Q.where is None else min(len(PT), len(Q.ticks))
+            if Q.ticks[:n] != PT[:n]:
+                i = next((x for x in range(min(n, len(Q.ticks))) if Q.ticks[x] != PT[x]), min(n, len(Q.ticks)))
+                same_kind = i < len(Q.ticks) and i < n and tick_brief(Q.ticks[i]) == tick_brief(PT[i])
                 r.v(
                     "replayed_ticks_differ",
                     at=i,
                     of=n,
-                    had=tick_brief(P.ticks[i]) if i < n else None,
+                    had=tick_brief(PT[i]) if i < n else None,
                     got=tick_brief(Q.ticks[i]) if i < len(Q.ticks) else None,
                     only_payload=same_kind,
                     **attrs,
                 )
             # (b) published events
-            m = len(P.pubs)
-            if Q.pubs[:m] != P.pubs:
-                i = next((x for x in range(min(m, len(Q.pubs))) if Q.pubs[x] != P.pubs[x]), min(m, len(Q.pubs)))
+            m = len(PP) if Q.where is None else min(len(PP), len(Q.pubs))
+            if Q.pubs[:m] != PP[:m]:
+                i = next((x for x in range(min(m, len(Q.pubs))) if Q.pubs[x] != PP[x]), min(m, len(Q.pubs)))
                 r.v(
                     "replayed_published_events_differ",
                     at=i,
                     of=m,
-                    had=(P.pubs[i] or {}).get("t") if i < m else None,
+                    had=(PP[i] or {}).get("t") if i < m else None,
                     got=(Q.pubs[i] or {}).get("t") if i < len(Q.pubs) else None,
                     **attrs,
                 )
@@ -929,10 +950,10 @@ class C27(Prop):
             if rows[: len(before)] != before:
                 r.v("journal_rewritten", phase=tag, had=len(before), now=len(rows), **attrs)
         keys = [row[3] for row in sorted(rows, key=lambda x: (x[2], x[0]))]
-        wk = [k for k in keys if not k.startswith("__pull__")]
+        wk = [k for k in keys if not k.startswith("__")]
         tk = [f"{t['step_name']}:{t['worker_id']}" for t in life.ticks if isinstance(t, dict) and t.get("type") == "step_result"]
-        # every processed step result was journaled first, in that order (the last journaled completion may be unprocessed)
-        if wk[: len(tk)] != tk or len(wk) - len(tk) not in (0, 1):
+        # every processed step result was journaled first, in that order; a finished life has processed all of them
+        if wk[: len(tk)] != tk or (life.where is None and life.finished and len(wk) != len(tk)):
             r.v("journal_disagrees_with_processed_step_results", phase=tag, journal=wk[:12], processed=tk[:12], **attrs)
         pk = [k for k in keys if k.startswith("__pull__")]
         if pk != [f"__pull__:{i}" for i in range(len(pk))]:
